@@ -16,16 +16,8 @@ def run(tier):
         for again in ("0", "1"):
             conds.append(Cond("h_constraints.py", "cached_equals_fresh", to, path_timeout=to / 2,
                               env={"H_PROG": str(p), "H_R2": "0" if q else "2", "H_AGAIN": again}))
-    conds.append(Cond("h_constraints.py", "reach", 600, env={"H_PROG": "21", "H_R2": "2"}))
+    conds.append(Cond("h_constraints.py", None, 600, twin="reach", env={"H_PROG": "21", "H_R2": "2"}))
     run.run_conditions(conds, conformance_harnesses=["h_constraints.py"])
-    # the twin above is a plain reachability witness (must be refuted)
-    for r in run.results:
-        if r["function"] == "reach" and not r.get("twin"):
-            r["twin"] = True
-            if r["status"] == "refuted":
-                r["twin_ok"] = True
-                run.errors = [e for e in run.errors if "reach" not in e]
-                run.violations = [v for v in run.violations]
     run.encoded = ENCODED + ["Constraint.cache (per-constraint memo)", "Evaluator._fitness_cache/_solution_set", "DerivationTree.invalidate_hash/set_children"]
     run.extra["source_sha256_16"] = source_fingerprint(FILES + ["fandango/language/tree.py"])
     run.bounds = {"history": "evaluate tree A; then tree B = A with one leaf replaced (symbolic position and character), either as a new "
